@@ -1916,7 +1916,8 @@ class SolidityStorage(Storage):
             )
         elif is_bv_value(loc):
             orig_term = ex.sha3s.reverse_lookup(loc.as_long())
-            if orig_term is not None:
+            # keccak256("") is registered as a constant without a preimage term: nothing to decode
+            if orig_term is not None and orig_term.num_args() > 0:
                 return cls.decode(ex, orig_term)
             else:
                 return (loc,)
@@ -2027,7 +2028,8 @@ class GenericStorage(Storage):
             return cls.add_all([cls.decode(ex, arg) for arg in args])
         elif is_bv_value(loc):
             orig_term = ex.sha3s.reverse_lookup(loc.as_long())
-            if orig_term is not None:
+            # keccak256("") is registered as a constant without a preimage term: nothing to decode
+            if orig_term is not None and orig_term.num_args() > 0:
                 return cls.decode(ex, orig_term)
             else:
                 return loc
